@@ -20,6 +20,25 @@ if prop in ("C04", "C12"):
     if r.returncode != 0:
         print("govc: WARNING: the assumed encoding/json model disagrees with the real decoder (see evidence)", file=sys.stderr)
 
+if prop == "C20":
+    # the scripted-behaviour search (the witness search the check uses after a failed obligation) run on the tree as it
+    # is: the real helpers with real testify against an oracle written from the statement. Empirical cross-check of the
+    # assumed contracts (testify, unknown callees); the known finding D9 is excluded from the search.
+    scratch = tempfile.mkdtemp(prefix="govc-c20w-")
+    try:
+        tf = scratch + "/zz_replay_test.go"
+        shutil.copy("/verif/govc/c20witness_test.go.txt", tf)
+        json.dump({"Replace": {repo + "/test/zz_verif_replay_test.go": tf}}, open(scratch + "/ov.json", "w"))
+        r = subprocess.run(["go", "test", "-tags", "verif", "-overlay", scratch + "/ov.json", "-vet=off", "-count=1", "-v", "-timeout", "120s",
+                            "-run", "^TestVerifReplay$", "."], cwd=repo + "/test", env=env, capture_output=True, text=True, timeout=300)
+        lines = [l for l in r.stdout.splitlines() if l.startswith("VERIFWITNESS")]
+        cov["assumption_sanity"] = {"what": "6 helpers x 3 constraints x 4x4 hook behaviours x 7 marshaler behaviours x 6 predicate kinds (+ a type without the interface) run on the real helpers against an oracle written from the statement (empirical, not a proof)",
+                                    "exit": r.returncode, "output": "\n".join(lines)[-1200:]}
+        if not any(l.startswith("VERIFWITNESSDONE found=0") for l in lines):
+            print("govc: WARNING: the scripted-behaviour search disagrees with the proved clauses (see evidence)", file=sys.stderr)
+    finally:
+        shutil.rmtree(scratch, ignore_errors=True)
+
 results = []
 for d in sorted(glob.glob("/verif/seeded/%s-*" % prop)):
     try:
